@@ -29,6 +29,10 @@ fixed("C01","d66ec89","pin:flags_after_sty_assign","'l = Y' (STY) kept the recor
 fixed("C02","e9684a4","pin:redundant_ldy_removed_flags_needed","peephole removed a redundant LDX/LDY whose N/Z result a following branch consumed")
 fixed("C02","cbd1889","pin:optimizer_flag_tracking","peephole pass kept its flag record across TXA/AND/TAX etc. and removed a load whose flags were needed")
 
+fixed("C10","6b96bfa","C10:bnot_const_fold","'~' of a non-literal constant expression was folded as x ^ 0xff: 's = ~(7 + 100)' stored 148 instead of -108")
+fixed("C11","152ed0f","pin:url_in_block_comment","a // inside a block comment hid the comment's */: '/* http://x */ char a;' swallowed the following lines")
+fixed("C11","e6f41ac","pin:blank_inside_aligned","'aligned( 256 )' was a syntax error: no white space allowed inside aligned()/scattered()")
+fixed("C11","bee0e25","pin:blank_before_macro_arguments","'SQ (2)' was not expanded and '#define SQ(x ) ...' became an object-like macro")
 fixed("C02","67a93c8","pin:pairing_across_inline_asm","peephole pass paired the instructions before and after an asm() line (STA b / asm / LDA b lost the load)")
 fixed("C16","4eb5c4a","pin:huge_literal","integer literals that do not fit i32 (or '--5') panicked in parse_int")
 fixed("C16","c535510","pin:only_a_comment","input that preprocesses to nothing panicked in the parse-error path (mapped_lines empty)")
@@ -80,6 +84,12 @@ C01=[
 for n,w in C01: known("C01","pin:"+n,w)
 
 known("C16","pin:deep_blocks_5000","5000 nested blocks (also 'if' chains and parentheses at similar depths) overflow pest's recursive descent on the 8 MiB stack: the process aborts; depth 512 is fine")
+known("C08","pin:paste_keeps_argument_blanks","'CAT(g, 2)' with '#define CAT(a,b) a##b' yields 'g 2': arguments keep their surrounding blanks, so ## does not form one token")
+known("C08","pin:macro_argument_nesting_limit","a macro argument that (after expansion) nests more than four parenthesis levels no longer matches: the macro call is silently left unexpanded")
+known("C08","pin:paste_with_non_parameter","'#define M(a) a##_t': the template '$a_t' names a capture group that does not exist, the argument is dropped")
+known("C10","pin:calc_nested_ternary_middle","the constant calculator encodes ?: as two binary operators with a magic 'not taken' value: a bare ?: as middle operand ('0 ? 1 ? 5 : 6 : 7') yields 6 instead of 7")
+known("C11","pin:macro_call_across_lines","a function-like macro call whose '(' or arguments continue on the next line is never expanded (macros are matched line by line)")
+known("C11","pin:blank_after_hash","'# define N 3' (white space or a comment between '#' and the directive name) is an unrecognised directive")
 known("C13","pin:continue_in_switch_in_dowhile","'do { switch (a) { case 1: continue; } } while (c);' jumps to .dowhileconditionN, a label that is never emitted")
 known("C13","pin:goto_undefined_label","'goto nowhere;' is accepted and emits JMP .nowhere with no such label")
 
